@@ -1,5 +1,6 @@
 #!/usr/bin/env python3
 
+import numbers
 import numpy as np
 
 
@@ -42,7 +43,7 @@ def randomWalkUniform( numSteps, dim=1, randomSeed=None ):
     if dim < 1:
         raise ValueError( "dim should be at least 1" )
 
-    if isinstance( randomSeed, int ):
+    if isinstance( randomSeed, numbers.Integral ):
         np.random.seed( randomSeed )
     
     rst = [ [ 0 ] * dim ]
